@@ -43,7 +43,7 @@ func scnRenewRecipes(ctx *check.JobCtx) {
 	p := DefaultLife()
 	p.Providers = 4
 	p.BlockReward = 1000
-	p.PoorSP = mode == "debt-release" || mode == "debt-expire"
+	p.PoorSP = mode == "debt-release" || mode == "debt-expire" || mode == "debt-multi"
 	if mode == "tiny-reduce" {
 		p.Providers = 2 // no spare provider: a silent replica can only be given up
 	}
@@ -93,7 +93,7 @@ func scnRenewRecipes(ctx *check.JobCtx) {
 			w.Terminate(o.Id, nil, g.Acct, "", did, nil)
 		} else {
 			md := w.Cur.Metas[did]
-			_, fp := w.Store(world.StoreReq{Owner: o.Id, Gateway: g, DataId: did, CommitId: md.Commit + "|" + (did[:30] + "-fp1xxxxxxxxxx")[:36], Duration: 3600, Replica: 1, Timeout: 300, Size: size, Operation: 2, Alias: md.Alias})
+			_, fp := w.Store(world.StoreReq{Owner: o.Id, Gateway: g, DataId: did, CommitId: md.Commit + "|" + (did[:30] + "-fp1xxxxxxxxxx")[:36], Duration: 3600, Replica: 1, Timeout: 300, Size: size, Operation: 2, Alias: world.AliasOf(md.Alias)})
 			if fp != 0 {
 				w.CompleteAll(fp)
 			}
@@ -145,7 +145,7 @@ func scnRenewRecipes(ctx *check.JobCtx) {
 		w.CompleteAll(o1)
 		w.EndBlock()
 		md := w.Cur.Metas[did]
-		_, o2 := w.Store(world.StoreReq{Owner: o.Id, Gateway: g, DataId: did, CommitId: md.Commit + "|" + (did[:28] + "-fpv2xxxxxxxxxxxx")[:36], Duration: d1, Replica: replica, Timeout: 500, Size: size, Alias: md.Alias})
+		_, o2 := w.Store(world.StoreReq{Owner: o.Id, Gateway: g, DataId: did, CommitId: md.Commit + "|" + (did[:28] + "-fpv2xxxxxxxxxxxx")[:36], Duration: d1, Replica: replica, Timeout: 500, Size: size, Alias: world.AliasOf(md.Alias)})
 		if o2 != 0 {
 			w.CompleteAll(o2)
 		}
@@ -159,7 +159,7 @@ func scnRenewRecipes(ctx *check.JobCtx) {
 		w.EndBlock()
 		w.Advance(int64(10 + r.Intn(300)))
 		md = w.Cur.Metas[did]
-		_, o3 := w.Store(world.StoreReq{Owner: o.Id, Gateway: g, DataId: did, CommitId: md.Commit + "|" + (did[:28] + "-fpv3xxxxxxxxxxxx")[:36], Duration: 3600, Replica: replica, Timeout: 500, Size: size, Operation: 2, Alias: md.Alias})
+		_, o3 := w.Store(world.StoreReq{Owner: o.Id, Gateway: g, DataId: did, CommitId: md.Commit + "|" + (did[:28] + "-fpv3xxxxxxxxxxxx")[:36], Duration: 3600, Replica: replica, Timeout: 500, Size: size, Operation: 2, Alias: world.AliasOf(md.Alias)})
 		if o3 != 0 {
 			w.CompleteAll(o3)
 		}
@@ -176,6 +176,96 @@ func scnRenewRecipes(ctx *check.JobCtx) {
 			w.Claim(sp.Acct)
 		}
 		w.EndBlock()
+		w.Sample("recipe %s: %s", mode, traceSummary(w))
+		w.Finish()
+		return
+	}
+	if mode == "debt-multi" {
+		// ONE renewal message for two models that both have a shard on the provider without funds: its balance
+		// covers the first collateral top-up but not the second
+		did2 := w.NewDataId()
+		_, oa := w.Store(world.StoreReq{Owner: o.Id, Gateway: g, DataId: did, CommitId: did, Duration: d1, Replica: replica, Timeout: 500, Size: size})
+		_, ob := w.Store(world.StoreReq{Owner: o.Id, Gateway: g, DataId: did2, CommitId: did2, Duration: d1, Replica: replica, Timeout: 500, Size: size})
+		w.CompleteAll(oa)
+		w.CompleteAll(ob)
+		w.EndBlock()
+		poor := l.SP[0].Acct.Addr.String()
+		bal := w.Cur.BalOf(poor)
+		pl := sdk.ZeroInt()
+		for _, sh := range sortedShards(w.Cur) {
+			if sh.Sp == poor && sh.Status == ShardCompleted {
+				pl = sh.Pledge.Amount
+			}
+		}
+		extra := uint64(6000)
+		if pl.IsPositive() && bal.IsPositive() {
+			// top-up T = 3/4 of the balance:  T <= balance < 2T
+			extra = bal.MulRaw(3).QuoRaw(4).MulRaw(int64(d1)).Quo(pl).Uint64()
+		}
+		w.Advance(int64(10 + r.Intn(200)))
+		w.Renew(o.Id, nil, g.Acct, "", d1+extra, 300, nil, did, did2)
+		w.EndBlock()
+		w.Case("recipe:%s:balance=%s,pledge=%s", mode, bucketInt(bal), bucketInt(pl))
+		if r.Intn(2) == 0 {
+			w.Advance(int64(50 + r.Intn(300)))
+			w.Terminate(o.Id, nil, g.Acct, "", did2, nil)
+			w.EndBlock()
+		}
+		for round := 0; round < 12 && !w.Halted(); round++ {
+			next := l.nextScheduled()
+			if next == 0 || int64(next) > w.C.Height+60000 {
+				break
+			}
+			w.AdvanceTo(int64(next) + 1)
+		}
+		for _, sp := range l.SP {
+			w.Claim(sp.Acct)
+		}
+		w.EndBlock()
+		w.Sample("recipe %s: %s", mode, traceSummary(w))
+		w.Finish()
+		return
+	}
+	if mode == "cancel-old-expired" || mode == "timeout-old-expired" {
+		// two committed versions whose paid terms end at different heights; after the older one has expired (its
+		// order is gone, its id still heads the model's order list) a further update is proposed and cancelled /
+		// left to time out: the rollback recomputes the model's end from the remaining orders
+		_, o1 := w.Store(world.StoreReq{Owner: o.Id, Gateway: g, DataId: did, CommitId: did, Duration: 3600, Replica: replica, Timeout: 300, Size: size})
+		w.CompleteAll(o1)
+		w.EndBlock()
+		w.Advance(int64(5 + r.Intn(50)))
+		md := w.Cur.Metas[did]
+		_, o2 := w.Store(world.StoreReq{Owner: o.Id, Gateway: g, DataId: did, CommitId: md.Commit + "|" + (did[:28] + "-coe2xxxxxxxxxxxx")[:36], Duration: 9000 + uint64(r.Intn(1000)), Replica: replica, Timeout: 300, Size: size, Alias: world.AliasOf(md.Alias)})
+		if o2 != 0 {
+			w.CompleteAll(o2)
+		}
+		w.EndBlock()
+		// past the first version's end
+		w.AdvanceTo(w.C.Height + 3700)
+		if md, ok := w.Cur.Metas[did]; ok {
+			to := int32(30 + r.Intn(40))
+			_, o3 := w.Store(world.StoreReq{Owner: o.Id, Gateway: g, DataId: did, CommitId: md.Commit + "|" + (did[:28] + "-coe3xxxxxxxxxxxx")[:36], Duration: 3600, Replica: 1, Timeout: to, Size: size, Alias: world.AliasOf(md.Alias)})
+			w.EndBlock()
+			if o3 != 0 {
+				if mode == "cancel-old-expired" {
+					w.Cancel(g.Acct, o3, g.Acct.Addr.String())
+					w.EndBlock()
+				} else {
+					w.Advance(int64(to)*11 + 5)
+				}
+			}
+			w.Case("recipe:%s:update-accepted=%v", mode, o3 != 0)
+		} else {
+			w.Case("recipe:%s:model-gone-early", mode)
+		}
+		w.Advance(3)
+		for round := 0; round < 12 && !w.Halted(); round++ {
+			next := l.nextScheduled()
+			if next == 0 || int64(next) > w.C.Height+40000 {
+				break
+			}
+			w.AdvanceTo(int64(next) + 1)
+		}
 		w.Sample("recipe %s: %s", mode, traceSummary(w))
 		w.Finish()
 		return
@@ -203,7 +293,7 @@ func scnRenewRecipes(ctx *check.JobCtx) {
 	if mode == "multiversion-migrate" {
 		for v := 1; v <= 2; v++ {
 			md := w.Cur.Metas[did]
-			_, uo := w.Store(world.StoreReq{Owner: o.Id, Gateway: g, DataId: did, CommitId: md.Commit + "|" + (fmt.Sprintf("%s-mv%d", did[:28], v) + "xxxxxxxxxxxx")[:36], Duration: d1, Replica: replica, Timeout: 500, Size: size, Alias: md.Alias})
+			_, uo := w.Store(world.StoreReq{Owner: o.Id, Gateway: g, DataId: did, CommitId: md.Commit + "|" + (fmt.Sprintf("%s-mv%d", did[:28], v) + "xxxxxxxxxxxx")[:36], Duration: d1, Replica: replica, Timeout: 500, Size: size, Alias: world.AliasOf(md.Alias)})
 			if uo != 0 {
 				w.CompleteAll(uo)
 			}
@@ -225,9 +315,60 @@ func scnRenewRecipes(ctx *check.JobCtx) {
 		w.Finish()
 		return
 	}
-	w.Advance(int64(10 + r.Intn(500)))
+	if mode != "exam-during-migration" {
+		w.Advance(int64(10 + r.Intn(500)))
+	}
 	renew := func(d uint64) { w.Renew(o.Id, nil, g.Acct, "", d, 300, nil, did) }
 	switch mode {
+	case "exam-during-migration":
+		// a provider starts to hand its shard over and the owner renews BEFORE the fully stored order's first
+		// timeout examination (created + 500) comes up; the new provider completes afterwards
+		w.Advance(int64(1 + r.Intn(100)))
+		for _, sh := range sortedShards(w.Cur) {
+			if sh.Status == ShardCompleted {
+				if pr := w.ProviderByAddr(sh.Sp); pr != nil {
+					w.Migrate(pr.Acct, did)
+					break
+				}
+			}
+		}
+		w.EndBlock()
+		if r.Intn(3) > 0 {
+			renew(3600 + uint64(r.Intn(3000)))
+			w.EndBlock()
+		}
+		if od, ok := w.Cur.Orders[oid]; ok {
+			w.AdvanceTo(int64(od.CreatedAt) + 503)
+		}
+		if md, ok := w.Cur.Metas[did]; ok {
+			for i := len(md.Orders) - 1; i >= 0; i-- {
+				if w.CompleteAll(md.Orders[i]) > 0 {
+					break
+				}
+			}
+		}
+	case "term-migrating-renewed", "fp-migrating-renewed":
+		// renewal, then a migration that is still in flight when the owner terminates / force-replaces the model
+		renew(3600 + uint64(r.Intn(3000)))
+		w.EndBlock()
+		for _, sh := range sortedShards(w.Cur) {
+			if sh.Status == ShardCompleted {
+				if pr := w.ProviderByAddr(sh.Sp); pr != nil {
+					w.Migrate(pr.Acct, did)
+					break
+				}
+			}
+		}
+		w.EndBlock()
+		w.Advance(int64(1 + r.Intn(50)))
+		if mode == "term-migrating-renewed" {
+			w.Terminate(o.Id, nil, g.Acct, "", did, nil)
+		} else if md, ok := w.Cur.Metas[did]; ok {
+			_, fp := w.Store(world.StoreReq{Owner: o.Id, Gateway: g, DataId: did, CommitId: md.Commit + "|" + (did[:28] + "-fpmrxxxxxxxxxxxx")[:36], Duration: 3600, Replica: 1, Timeout: 300, Size: size, Operation: 2, Alias: world.AliasOf(md.Alias)})
+			if fp != 0 {
+				w.CompleteAll(fp)
+			}
+		}
 	case "terminate":
 		w.Terminate(o.Id, nil, g.Acct, "", did, nil)
 	case "shorter":
@@ -363,7 +504,7 @@ func scnVersions(ctx *check.JobCtx) {
 		update := func(gwp *world.Provider, signer *world.Owner, op uint32) (*world.TxEvent, uint64) {
 			md := w.Cur.Metas[did]
 			return w.Store(world.StoreReq{Owner: signer.Id, Gateway: gwp, DataId: did, CommitId: md.Commit + "|" + a.nextCommit(did), Duration: 3600,
-				Replica: 1, Timeout: int32(30 + r.Intn(40)), Size: 1000, Operation: op, Alias: md.Alias})
+				Replica: 1, Timeout: int32(30 + r.Intn(40)), Size: 1000, Operation: op, Alias: world.AliasOf(md.Alias)})
 		}
 		for step := 0; step < 8 && !w.Halted(); step++ {
 			if _, ok := w.Cur.Metas[did]; !ok {
@@ -377,7 +518,39 @@ func scnVersions(ctx *check.JobCtx) {
 			if r.Intn(4) == 0 {
 				op = 2
 			}
-			switch r.Intn(6) {
+			pick := r.Intn(7)
+			if step == 1 {
+				pick = 6
+			}
+			switch pick {
+			case 6: // a two-replica update: one provider stores (the version is committed), the other stays silent, is
+				// replaced at the timeout examination, and the replacement completes later — while an unrelated
+				// order of the same price is still in flight (its payment sits in the order escrow)
+				other := w.NewDataId()
+				w.Store(world.StoreReq{Owner: a.stranger.Id, Gateway: a.gw, DataId: other, CommitId: other, Duration: 3600, Replica: 2, Timeout: 3000, Size: 1000})
+				md := w.Cur.Metas[did]
+				to := int32(30 + r.Intn(40))
+				_, oid := w.Store(world.StoreReq{Owner: signer.Id, Gateway: a.gw, DataId: did, CommitId: md.Commit + "|" + a.nextCommit(did), Duration: 3600,
+					Replica: 2, Timeout: to, Size: 1000, Operation: 1, Alias: world.AliasOf(md.Alias)})
+				if od, ok := w.Cur.Orders[oid]; ok && len(od.Shards) == 2 {
+					sh := w.Cur.Shards[od.Shards[r.Intn(2)]]
+					if pr := w.ProviderByAddr(sh.Sp); pr != nil {
+						w.Complete(pr.Acct, nil, oid, sh.Size_)
+					}
+					w.EndBlock()
+					// a further update is committed on top before the silent replica is examined
+					between := uint64(0)
+					if r.Intn(3) > 0 {
+						if _, u := update(a.gw, o, 1); u != 0 {
+							w.CompleteAll(u)
+							between = u
+						}
+						w.EndBlock()
+					}
+					w.Advance(int64(to) + 2)
+					n := w.CompleteAll(oid)
+					w.Case("c16:recipe:late-replacement-completes:completed=%d,update-between=%v", n, between != 0)
+				}
 			case 0: // update, cancelled by the gateway, then the next update names whatever the chain shows as current
 				if _, oid := update(a.gw, signer, op); oid != 0 {
 					w.EndBlock()
@@ -434,7 +607,7 @@ func staleOrderOnRecreatedModel(a *authzWorld) {
 		return
 	}
 	md := w.Cur.Metas[did]
-	_, stale := w.Store(world.StoreReq{Owner: a.owner.Id, Gateway: a.gw, DataId: did, CommitId: md.Commit + "|" + a.nextCommit(did), Duration: 3600, Replica: 1, Timeout: 2000, Size: 1000, Alias: md.Alias})
+	_, stale := w.Store(world.StoreReq{Owner: a.owner.Id, Gateway: a.gw, DataId: did, CommitId: md.Commit + "|" + a.nextCommit(did), Duration: 3600, Replica: 1, Timeout: 2000, Size: 1000, Alias: world.AliasOf(md.Alias)})
 	w.EndBlock()
 	w.Terminate(a.owner.Id, nil, a.gw.Acct, "", did, nil)
 	w.EndBlock()
@@ -476,7 +649,7 @@ func revokedBeforeCompletion(a *authzWorld) {
 			continue
 		}
 		md := w.Cur.Metas[did]
-		_, oid := w.Store(world.StoreReq{Owner: a.rw.Id, Gateway: a.gw, DataId: did, CommitId: md.Commit + "|" + a.nextCommit(did), Duration: 3600, Replica: 1, Timeout: 2000, Size: 1000, Alias: md.Alias})
+		_, oid := w.Store(world.StoreReq{Owner: a.rw.Id, Gateway: a.gw, DataId: did, CommitId: md.Commit + "|" + a.nextCommit(did), Duration: 3600, Replica: 1, Timeout: 2000, Size: 1000, Alias: world.AliasOf(md.Alias)})
 		w.EndBlock()
 		if oid == 0 {
 			continue
@@ -514,7 +687,7 @@ func renewAfterGranteeUpdate(a *authzWorld) {
 			continue
 		}
 		md := w.Cur.Metas[did]
-		_, oid := w.Store(world.StoreReq{Owner: a.rw.Id, Gateway: a.gw, DataId: did, CommitId: md.Commit + "|" + a.nextCommit(did), Duration: 3600, Replica: 1, Timeout: 400, Size: 1000, Alias: md.Alias})
+		_, oid := w.Store(world.StoreReq{Owner: a.rw.Id, Gateway: a.gw, DataId: did, CommitId: md.Commit + "|" + a.nextCommit(did), Duration: 3600, Replica: 1, Timeout: 400, Size: 1000, Alias: world.AliasOf(md.Alias)})
 		if oid == 0 {
 			continue
 		}
